@@ -142,6 +142,43 @@ pub fn run(ctx: &mut Ctx) {
         ctx.case("differential_reader_auth", json!({"registry": i % 3, "original": ra_a, "restored": ra_b}), ciborium::Value::Bool(same), None, Some(("c14.spec_same", vec![])), true);
         ctx.rng = rng;
     }
+    // a stringify that FAILS right before (a wallet document whose validUntil cannot be written as a UTC date), on the same
+    // thread: the next object's serialised form is its own, complete and restorable
+    {
+        let mut rng = ctx.rng.clone();
+        let pki = crate::pki::Pki::generate(&mut rng);
+        let (m, _k) = issue(&mut rng, &pki, MDL, [(NS.to_string(), [("family_name".to_string(), ciborium::Value::Text("Doe".into()))].into_iter().collect())].into_iter().collect(), isomdl::definitions::DigestAlgorithm::SHA256, false);
+        let healthy = establish(documents_of(vec![m.clone()]), None, &request_specs()[0], Default::default(), Default::default());
+        // the same document with validUntil = 9999-12-31T23:59:59-01:00 in its typed MSO
+        let mut mv = ciborium::Value::serialized(&m).expect("mdoc value");
+        fn set_until(v: &mut ciborium::Value) {
+            match v {
+                ciborium::Value::Map(es) => for (k, x) in es.iter_mut() {
+                    if k.as_text() == Some("validUntil") { *x = ciborium::Value::Tag(0, Box::new(ciborium::Value::Text("9999-12-31T23:59:59-01:00".into()))); } else { set_until(x) }
+                },
+                ciborium::Value::Array(a) => for x in a { set_until(x) },
+                ciborium::Value::Tag(_, b) => set_until(b),
+                _ => {}
+            }
+        }
+        set_until(&mut mv);
+        let bad = isomdl::cbor::from_slice::<isomdl::issuance::Mdoc>(&crate::runner::to_bytes(&mv)).ok()
+            .and_then(|bm| device::SessionManagerInit::initialise(documents_of(vec![bm]), None, None).ok());
+        if let (Ok(h), Some(bad)) = (healthy, bad) {
+            let reference = (h.dev.stringify().ok(), h.rdr.stringify().ok());
+            let mut verdicts = vec![];
+            for round in 0..2 {
+                let failed = catch(|| bad.stringify()).map(|r| r.is_err()).unwrap_or(true);
+                ctx.count(if failed { "stringify_after_failure:the-earlier-stringify-failed" } else { "stringify_after_failure:the-earlier-stringify-succeeded" });
+                let s = if round == 0 { h.dev.stringify().ok() } else { h.rdr.stringify().ok() };
+                let again = if round == 0 { s.clone().and_then(|s| device::SessionManager::parse(s).ok()).and_then(|d| d.stringify().ok()) }
+                            else { s.clone().and_then(|s| isomdl::presentation::reader::SessionManager::parse(s).ok()).and_then(|d| d.stringify().ok()) };
+                verdicts.push(s.is_some() && s == (if round == 0 { reference.0.clone() } else { reference.1.clone() }) && again == s);
+            }
+            ctx.case("stringify_after_a_failed_stringify", json!({"device": verdicts[0], "reader": verdicts[1]}), ciborium::Value::Bool(verdicts.iter().all(|v| *v)), None, Some(("c14.spec_same", vec![])), true);
+        } else { ctx.count("stringify_after_failure:not-built"); }
+        ctx.rng = rng;
+    }
     // the reader's certificate EXPIRES between two reader-authenticated requests of one session: the session object that
     // lived through both and its copy restored after the first one must judge the second request alike
     {
